@@ -735,7 +735,10 @@ func (sys *System) GetCachedLocations(ctx *Context) []string {
 }
 
 func (sys *System) ensureStorage(ctx *Context) (Storage, error) {
-	// Assumes we have the sys lock
+	// The first requests of a new System can come together: only
+	// one of them makes the storage, and the others get that one.
+	sys.Mutex.Lock()
+	defer sys.Mutex.Unlock()
 	if sys.storage != nil {
 		return sys.storage, nil
 	}
@@ -756,6 +759,8 @@ func (sys *System) ensureStorage(ctx *Context) (Storage, error) {
 // might not really do anything (depending on the Storage, of course).
 func (sys *System) Close(ctx *Context) error {
 	Log(INFO, ctx, "System.Close")
+	sys.Mutex.Lock()
+	defer sys.Mutex.Unlock()
 	if sys.storage != nil {
 		err := sys.storage.Close(ctx)
 		sys.storage = nil // ?
@@ -1564,6 +1569,8 @@ func (sys *System) GetProfileBlock(ctx *Context) (string, error) {
 //
 // Used by 'service' for testing purposes.
 func (sys *System) PeekStorage(ctx *Context) (Storage, error) {
+	sys.Mutex.Lock()
+	defer sys.Mutex.Unlock()
 	return sys.storage, nil
 }
 
